@@ -139,6 +139,7 @@ type Engine struct {
 	quantVars map[types.Object]bool
 	strLens map[string]int64
 	frame *frame
+	clauseState *State
 	gmapFamilies int
 	mapV0 T
 	alloc0 T
